@@ -408,14 +408,20 @@ func ddLogJSON(c *Case, r *rand.Rand) []byte {
 		if e.SType != nil {
 			m = append(m, kv("source_type", jS(string(*e.SType))))
 		}
-		m = append(m, kv("message", jS(string(e.Message))))
+		if c.KeyOrder != "message-first" {
+			m = append(m, kv("message", jS(string(e.Message))))
+		}
 		if e.TsMs != 0 {
 			m = append(m, kv("timestamp", jN(strconv.FormatInt(e.TsMs, 10))))
 		}
 		if r.Intn(5) == 0 {
 			m = append(m, kv("status", jS("info")))
 		}
-		items = append(items, shuffledObject(r, m))
+		o := shuffledObject(r, m)
+		if c.KeyOrder == "message-first" { // the Datadog agent's order: the message, then the other keys
+			o.O = append([]JKV{kv("message", jS(string(e.Message)))}, o.O...)
+		}
+		items = append(items, o)
 	}
 	doc := jA(items...)
 	if c.Damage {
